@@ -27,6 +27,16 @@ func init() {
 				return 120000
 			}
 			return 3200
+		}}, {Name: "near_coincident", NumCases: func(t string) int {
+			if t == "thorough" {
+				return 6000
+			}
+			return 300
+		}}, {Name: "tiny_magnitude", NumCases: func(t string) int {
+			if t == "thorough" {
+				return 6000
+			}
+			return 300
 		}}},
 		Run: run,
 		Floors: func(t string) map[string]int64 {
@@ -351,11 +361,69 @@ func run(c *core.Ctx, idx int) {
 		maxVerts = 300
 	}
 	scale := math.Pow(10, r.Range(-2, 3))
+	if c.Phase == "ops" && r.Chance(0.12) {
+		// other magnitudes: micro-units to astronomical (everything below is relative to the scale)
+		scale = math.Pow(10, r.Range(-6, 15))
+		c.Count("scale.1e-6..1e15")
+	}
+	if c.Phase == "tiny_magnitude" {
+		// coordinates of magnitude 1e-13 .. 1e-10 (the clipper snaps with an absolute tolerance)
+		scale = math.Pow(10, r.Range(-13, -10))
+	}
 	ox, oy := r.Range(-5, 5)*scale, r.Range(-5, 5)*scale
 	cfg := configs[r.Intn(len(configs))]
+	if c.Phase == "tiny_magnitude" {
+		cfg = []string{"overlapping", "b_inside_a", "disjoint_bbox_overlap"}[r.Intn(3)]
+	}
+	if c.Phase == "near_coincident" {
+		cfg = "near_coincident"
+	}
+	// in the two extra phases every violation is reported under one key per phase: they exist to
+	// document defects of the external clipper that geom passes its operands to unchanged
+	violate := func(key, what string, detail map[string]interface{}) {
+		switch c.Phase {
+		case "near_coincident":
+			key = "near-coincident-operands"
+		case "tiny_magnitude":
+			key = "tiny-magnitude-operands"
+		}
+		c.Violate(key, what, detail)
+	}
 	var a, b Operand
 	ra := scale * r.Range(0.5, 1.5)
+	gpDelta := -1.0
 	switch cfg {
+	case "near_coincident":
+		// B is A enlarged or shrunk by a factor 1 +- e about its centre and shifted by about e*radius,
+		// e = 1e-12 .. 1e-7.5: no shared vertex, no collinear edges, but the boundaries run next to
+		// each other everywhere
+		a = GenOperand(r, ox, oy, ra, kinds[r.Intn(len(kinds))], maxVerts)
+		e := math.Pow(10, r.Range(-12, -7.5))
+		f, sx, sy := 1+e*r.Range(-1, 1), e*ra*r.Range(-1, 1), e*ra*r.Range(-1, 1)
+		mv := func(p geom.Point) geom.Point {
+			return geom.Point{X: ox + (p.X-ox)*f + sx, Y: oy + (p.Y-oy)*f + sy}
+		}
+		b = Operand{Cx: ox, Cy: oy, Out: a.Out * 1.001, Kind: a.Kind}
+		for _, pg := range a.Polys {
+			q := make(geom.Polygon, len(pg))
+			for i, ring := range pg {
+				q[i] = make(geom.Path, len(ring))
+				for k, pt := range ring {
+					q[i][k] = mv(pt)
+				}
+			}
+			b.Polys = append(b.Polys, q)
+		}
+		if a.Box != nil {
+			b.Box = &geom.Bounds{Min: mv(a.Box.Min), Max: mv(a.Box.Max)}
+			ring := geom.Path{{X: b.Box.Min.X, Y: b.Box.Min.Y}, {X: b.Box.Max.X, Y: b.Box.Min.Y}, {X: b.Box.Max.X, Y: b.Box.Max.Y}, {X: b.Box.Min.X, Y: b.Box.Max.Y}}
+			b.Polys = []geom.Polygon{{gen.RespellRandom(r, ring)}}
+		}
+		b.finish()
+		if r.Bool() {
+			a, b = b, a
+		}
+		gpDelta = 0 // only exact incidences are rejected
 	case "overlapping":
 		a = GenOperand(r, ox, oy, ra, kinds[r.Intn(len(kinds))], maxVerts)
 		rb := ra * r.Range(0.4, 1.6)
@@ -479,7 +547,10 @@ func run(c *core.Ctx, idx int) {
 	}
 	diam = math.Hypot(maxx-minx, maxy-miny)
 	delta := 1e-7 * diam
-	if !generalPosition(&a, &b, delta) {
+	if gpDelta < 0 {
+		gpDelta = delta
+	}
+	if !generalPosition(&a, &b, gpDelta) {
 		c.Count("rejected.not_general_position")
 		return
 	}
@@ -573,7 +644,7 @@ func run(c *core.Ctx, idx int) {
 				rings, isNil, problem := resultRings(res)
 				detail["result"] = gen.Dump(res)
 				if problem != "" {
-					c.Violate("result-malformed:"+opNames[op]+":"+cfgClass, fmt.Sprintf("%s.%s(%s) returned %s", recvName, opn, argName, problem), detail)
+					violate("result-malformed:"+opNames[op]+":"+cfgClass, fmt.Sprintf("%s.%s(%s) returned %s", recvName, opn, argName, problem), detail)
 					continue
 				}
 				_ = isNil
@@ -581,7 +652,7 @@ func run(c *core.Ctx, idx int) {
 				if recvName != "*Bounds" {
 					for k, ring := range rings {
 						if len(ring) > 0 && ring[0] != ring[len(ring)-1] {
-							c.Violate("unclosed-ring:"+opNames[op], fmt.Sprintf("%s.%s(%s): result ring %d is not closed", recvName, opn, argName, k), detail)
+							violate("unclosed-ring:"+opNames[op], fmt.Sprintf("%s.%s(%s): result ring %d is not closed", recvName, opn, argName, k), detail)
 							break
 						}
 					}
@@ -622,14 +693,14 @@ func run(c *core.Ctx, idx int) {
 					}
 					detail["point"] = []float64{p.X, p.Y}
 					detail["in_A"], detail["in_B"] = inA[bad], inB[bad]
-					c.Violate(fmt.Sprintf("%s:%s:%s", kind, opNames[op], cfgClass),
+					violate(fmt.Sprintf("%s:%s:%s", kind, opNames[op], cfgClass),
 						fmt.Sprintf("%s.%s(%s) [%s, %s/%s]: point (%v,%v) in A=%v in B=%v but in result=%v", recvName, opn, argName, cfg, a.Kind, b.Kind, p.X, p.Y, inA[bad], inB[bad], !truth(op, inA[bad], inB[bad])), detail)
 					continue
 				}
 				if withinBad >= 0 {
 					p := pts[withinBad]
 					detail["point"] = []float64{p.X, p.Y}
-					c.Violate("within-on-result:"+opNames[op], fmt.Sprintf("Point.Within(result of %s) disagrees with the even-odd membership of the result rings at (%v,%v)", opn, p.X, p.Y), detail)
+					violate("within-on-result:"+opNames[op], fmt.Sprintf("Point.Within(result of %s) disagrees with the even-odd membership of the result rings at (%v,%v)", opn, p.X, p.Y), detail)
 				}
 				if empty && !witness[op] {
 					c.Count("result.empty_correct")
@@ -642,7 +713,7 @@ func run(c *core.Ctx, idx int) {
 					var got float64
 					if !c.Guard("Area(result)", detail, func() { got = res.Area() }) {
 						if math.Abs(got-ar) > 1e-9*(areaA+areaB) {
-							c.Violate("area-method:"+opNames[op], fmt.Sprintf("Area() of the %s result = %v, its rings enclose %v", opn, got, ar), detail)
+							violate("area-method:"+opNames[op], fmt.Sprintf("Area() of the %s result = %v, its rings enclose %v", opn, got, ar), detail)
 						}
 					}
 				}
@@ -660,7 +731,7 @@ func run(c *core.Ctx, idx int) {
 					if math.Abs(lhs-rhs) > tol {
 						d := baseDetail()
 						d["areas"] = map[string]float64{"A": areaA, "B": areaB, "I": I, "U": U, "D": D, "X": X, "Dr": Dr}
-						c.Violate("area-identity:"+name+":"+cfgClass, fmt.Sprintf("%s violated for %s x %s: %v vs %v", name, pa.name, pb.name, lhs, rhs), d)
+						violate("area-identity:"+name+":"+cfgClass, fmt.Sprintf("%s violated for %s x %s: %v vs %v", name, pa.name, pb.name, lhs, rhs), d)
 					}
 				}
 				chk("area(I)+area(A-B)=area(A)", I+D, areaA)
